@@ -228,6 +228,11 @@ var hands = map[string]hand{
 		u.Types["e_status2"] = marker
 		return []schema.Change{&schema.RenameObject{From: from, To: &to}}, nil
 	})},
+	// ---- named types with / without a schema back-reference, via column types only / via objects
+	"types.attached.columns": {dialects: []string{"postgres"}, build: typeSet(true, false)},
+	"types.attached.objects": {dialects: []string{"postgres"}, build: typeSet(true, true)},
+	"types.noschema.columns": {dialects: []string{"postgres"}, build: typeSet(false, false)},
+	"types.noschema.objects": {dialects: []string{"postgres"}, build: typeSet(false, true)},
 	// ---- clauses
 	"clause.drop-ifexists": {build: single(richFlags, nil, false, true, func(d string, a, b *schema.Schema, u *universe, ch []schema.Change) ([]schema.Change, error) {
 		for _, c := range ch {
@@ -281,6 +286,60 @@ var hands = map[string]hand{
 		}
 		return ch, nil
 	})},
+}
+
+// typeSet: a hand-assembled set that creates, alters, drops and uses named types (enum, enum array,
+// domain, composite and arrays of them). attach=false builds the type objects without a back-reference
+// to their schema (what schema.NewEnumColumn without schema.EnumSchema, or any programmatic caller,
+// produces); viaObjects adds Add/Modify/DropObject changes for the enums.
+func typeSet(attach, viaObjects bool) func(string) ([]schema.Change, *universe, error) {
+	return func(d string) ([]schema.Change, *universe, error) {
+		u := newUniverse(marker)
+		s := schema.New(marker)
+		u.Schemas[marker] = true
+		var ns *schema.Schema
+		if attach {
+			ns = s
+		}
+		status := &schema.EnumType{T: "e_status", Values: []string{"on", "off"}, Schema: ns}
+		level := &schema.EnumType{T: "e_level", Values: []string{"low", "high"}, Schema: ns}
+		level2 := &schema.EnumType{T: "e_level", Values: []string{"low", "mid", "high"}, Schema: ns}
+		kind := &schema.EnumType{T: "e_kind", Values: []string{"a", "b"}, Schema: ns}
+		dom := &postgres.DomainType{T: "e_dom", Schema: ns, Type: &schema.StringType{T: "text"}}
+		cmp := &postgres.CompositeType{T: "e_cmp", Schema: ns, Fields: []*schema.Column{schema.NewIntColumn("c_f", "integer")}}
+		ta := schema.NewTable("t_a").SetSchema(s).AddColumns(
+			schema.NewIntColumn("c_id", "integer"),
+			schema.NewColumn("c_st").SetType(status),
+			schema.NewColumn("c_lv").SetType(&postgres.ArrayType{T: "e_level[]", Type: level}),
+			schema.NewColumn("c_dom").SetType(dom),
+			schema.NewColumn("c_doms").SetType(&postgres.ArrayType{T: "e_dom[]", Type: dom}),
+			schema.NewColumn("c_cmp").SetType(cmp),
+			schema.NewColumn("c_cmps").SetType(&postgres.ArrayType{T: "e_cmp[]", Type: cmp}),
+		)
+		tb := schema.NewTable("t_b").SetSchema(s).AddColumns(schema.NewIntColumn("c_id", "integer"), schema.NewColumn("c_state").SetType(status))
+		txt := func(n string) *schema.Column { return schema.NewColumn(n).SetType(&schema.StringType{T: "text"}) }
+		mod := &schema.ModifyTable{T: tb, Changes: []schema.Change{
+			&schema.ModifyColumn{From: txt("c_state"), To: tb.Columns[1], Change: schema.ChangeType},
+			&schema.AddColumn{C: schema.NewColumn("c_extra").SetType(status)},
+			&schema.AddColumn{C: schema.NewColumn("c_kinds").SetType(&postgres.ArrayType{T: "e_kind[]", Type: kind}).SetNull(true)},
+			&schema.ModifyColumn{From: txt("c_d"), To: schema.NewColumn("c_d").SetType(dom), Change: schema.ChangeType},
+			&schema.ModifyColumn{From: txt("c_c"), To: schema.NewColumn("c_c").SetType(&postgres.ArrayType{T: "e_cmp[]", Type: cmp}), Change: schema.ChangeType},
+		}}
+		for _, n := range []string{"c_extra", "c_kinds", "c_d", "c_c"} {
+			u.Other[n] = true
+		}
+		u.addTable(ta)
+		u.addTable(tb)
+		for _, n := range []string{"e_status", "e_level", "e_kind", "e_dom", "e_cmp"} {
+			u.addType(n, ns)
+		}
+		var ch []schema.Change
+		if viaObjects {
+			ch = append(ch, &schema.AddObject{O: status}, &schema.ModifyObject{From: level, To: level2}, &schema.DropObject{O: kind})
+		}
+		ch = append(ch, &schema.AddTable{T: ta}, mod, &schema.DropTable{T: ta})
+		return ch, u, nil
+	}
 }
 
 func wantModifySchema(d string, a, b *schema.Schema, u *universe, ch []schema.Change) ([]schema.Change, error) {
